@@ -370,18 +370,13 @@ class YP(object):
         else:
             return
 
-        remaining_clauses = self._find_predicates_or_empty(name, len(args))[:]
-        i = 0
-        while i < len(remaining_clauses):
-            clause = remaining_clauses[i]
-            match = False
+        for clause in self._find_predicates_or_empty(name, len(args)):
             for cut in clause.match(args):
-                match = True
-                del remaining_clauses[i]
-                self._update_predicate(self.atom(name), len(args), remaining_clauses)
-                yield False
-            if not match:
-                i += 1
+                current = self._find_predicates_or_empty(name, len(args))
+                if any(c is clause for c in current):
+                    self._update_predicate(self.atom(name), len(args),
+                            [c for c in current if c is not clause])
+                    yield False
 
     def retractall(self, term):
         '''retractall(Term) removes all dynamic facts matching Term, without backtracking over identical clauses.'''
@@ -529,9 +524,9 @@ class YP(object):
             clauses = []
         answer = Answer(values)
         if append:
-            clauses.append(answer)
+            clauses = clauses + [answer]
         else:
-            clauses.insert(0, answer)
+            clauses = [answer] + clauses
         self._update_predicate(name, len(values), clauses)
 
     def query(self, name, args):
